@@ -118,7 +118,7 @@ def result_clause(spec_call, props, name='grammar_shape_spans_identifiers_and_co
             }})''', props)
 
 
-UNTOUCHED = ('token_stream_untouched', 'final(self).tokenizer.toks() == old(self).tokenizer.toks() && final(self).tokenizer.pos() <= final(self).tokenizer.toks().len()')
+UNTOUCHED = ('token_stream_untouched', 'final(self).tokenizer.toks() == old(self).tokenizer.toks() && final(self).tokenizer.pos() <= final(self).tokenizer.toks().len() && final(self).bindings == old(self).bindings')
 CURSOR = ('cursor_in_range', 'old(self).tokenizer.pos() <= old(self).tokenizer.toks().len()')
 HERE = 'old(self).tokenizer.toks(), old(self).tokenizer.pos(), old(self).next_label'
 PROPS = ('C02', 'C18', 'C17', 'C05', 'C09', 'C10')
@@ -175,7 +175,7 @@ def build():
     U.extract(S.CPR, 'impl CompiledProg', fns=S.stubbed(S.compprog_contracts()), others='stub', skip=('into_program',))
     U.extract(S.CPR, 'impl NodeValue', fns=S.stubbed(S.NODEVALUE))
     U.extract(S.CP, "impl<'l> CelCompiler<'l>", fns={
-        'new_label': A(stub=True, ret='r', ensures=[('fresh_label', 'r == old(self).next_label && final(self).next_label == old(self).next_label + 1 && final(self).tokenizer == old(self).tokenizer'),
+        'new_label': A(stub=True, ret='r', ensures=[('fresh_label', 'r == old(self).next_label && final(self).next_label == old(self).next_label + 1 && final(self).tokenizer == old(self).tokenizer && final(self).bindings == old(self).bindings'),
                                                   ('ASSUMED_no_overflow_of_the_label_counter', 'old(self).next_label < u32::MAX')]),
         'parse_conditional_or': A(stub=True, ret='r', requires=[CURSOR], ensures=[UNTOUCHED, result_clause(f'sp_or({HERE})', ())]),
         'parse_match_expression': A(stub=True, ret='r', requires=[CURSOR], ensures=[UNTOUCHED, result_clause(f'sp_match({HERE})', ())]),
